@@ -182,7 +182,7 @@ package network
 // ---- C06 / C07 / C17: the network Open runs its own on-open hook after the generic open ----------------------------------------
 //@ ghost nhookErr error
 //@ func (*Driver).Open [C06 C07 C17]
-//@   requires RI(d.Channel.Q) && d.Channel.Errs != d.Channel.Q.depthChan && d.Channel.PromptSearchDepth >= 0
+//@   requires RI(d.Channel.Q) && d.Channel.Errs != d.Channel.Q.depthChan && d.Channel.done != d.Channel.Q.depthChan && d.Channel.PromptSearchDepth >= 0
 //@   at call! Open#1 assert #the-generic-driver-is-opened-first recv == d.Driver
 //@   after call Open#1 set nhookErr = nil
 //@   after call dyn#1 set nhookErr = result
